@@ -310,10 +310,6 @@ def sortByKey (rows : List Record) (k : OrderKey) : Except Err (List Record) := 
 def orderResults (rows : List Record) (keys : List OrderKey) : Except Err (List Record) :=
   keys.reverse.foldlM sortByKey rows
 
-/-- the code before fix C13-order-per-key: one sort on the tuple of keys found by bare name,
-`reverse = any(descending)`.  Kept for the witness only, on integer keys. -/
-def orderResultsOldFlipsAll (keys : List OrderKey) : Bool := keys.any (fun k => k.dir == .desc)
-
 /-! ## IF.LDM.4 request_data_objects -/
 
 structure Request where
